@@ -134,8 +134,10 @@ def corr(ctx, n, nmax):
             try:
                 with np.errstate(all='ignore'):
                     if which == 'bisect':
+                        # bisect works on copies of the brackets (fix F16a): only the result and the number of
+                        # evaluations of f are observable; the model's final brackets are checked through them
                         res = bisect(f, xmin, xmax, tol=tol, maxiter=maxiter)
-                        py = list(res) + list(xmin) + list(xmax)
+                        py = list(res)
                     else:
                         res = chandrupatla(f, xmin, xmax, maxiter=maxiter)
                         py = list(res)
